@@ -18,7 +18,8 @@ from mc.ref import xsd as R
 SCENARIOS = {
     'quick': [('note', 'note'), ('words', 'rehearsal'), ('duration', 'duration'), ('type', 'swing-type'),
               ('measure', 'part'), ('credit-words', 'words'), ('lyric', 'text'), ('pitch', 'rest'),
-              ('direction', 'sound'), ('ending', 'measure-numbering')],
+              ('direction', 'sound'), ('ending', 'measure-numbering'), ('articulations', 'articulations'),
+              ('dynamics', 'technical')],
 }
 
 
@@ -49,20 +50,30 @@ def recipe(name, depth=0):
     kind, t = R.element_type(name)
     val = impl.valid_value(cls)
     attrs = dict(impl.req_attrs(cls, t)) if kind == 'complex' else {}
-    opt = None
+    opt = []
     if kind == 'complex':
         for (an, at, req) in R.ctype_attrs(t):
             if req or ':' in an or an == 'name' or not at:
                 continue
-            for v in impl._from_sample(at):
+            # numeric spellings first (union types such as font-size take numbers and strings)
+            cands = [v for v in impl._from_sample(at) if not isinstance(v, str)] + [v for v in impl._from_sample(at) if isinstance(v, str)]
+            for v in cands:
                 if impl.call(lambda: cls(val, xsd_check=False, **{an.replace('-', '_'): v})).ok:
-                    opt = (an.replace('-', '_'), v)
+                    opt.append((an.replace('-', '_'), v))
                     break
-            if opt:
+            if len(opt) >= (12 if depth == 0 else 1):
                 break
     kids = []
     if kind == 'complex' and R.content_model(t) is not None and depth < 8:
-        for a in impl.nfa(t).shortest_accepted():
+        A = impl.nfa(t)
+        w = A.shortest_accepted()
+        if depth == 0 and len(w) < 2:
+            # types that are complete when (nearly) empty: take the first accepted two-child word, so that repeated
+            # particles (duplication of the container) are exercised as well
+            two = [x for x in A.words(2) if len(x) == 2]
+            if two:
+                w = two[0]
+        for a in w:
             kids.append(recipe(a, depth + 1))
     return {'name': name, 'value': val, 'attrs': attrs, 'opt': opt, 'kids': kids}
 
@@ -71,8 +82,8 @@ def build_from(rec):
     import musicxml.xmlelement.xmlelement as X
     cls = getattr(X, impl.class_name_for(rec['name']))
     el = cls(rec['value'], **rec['attrs'])
-    if rec['opt']:
-        setattr(el, rec['opt'][0], rec['opt'][1])
+    for (an, v) in rec['opt']:
+        setattr(el, an, v)
     for k in rec['kids']:
         el.add_child(build_from(k))
     return el
